@@ -343,7 +343,7 @@ def main(tier, seed):
                               found_input=False)
             else:
                 res.violations += 1
-    # ---- BINARY tokens (sdaiBinary.cc ReadBinary / STEPwrite): oracle only (no Coq model of this reader)
+    # ---- BINARY tokens (sdaiBinary.cc ReadBinary / STEPwrite vs coq/P21Bin.v)
     DQ = '"'
     balpha = [DQ, "0", "3", "4", "A", "a", "G", " "]
     bbodies = []
@@ -354,6 +354,7 @@ def main(tier, seed):
     bdatas = [b + suf for b in bbodies for suf in (",", ")", " ,1", "")]
     reqs = ["Y %s" % hexs(d) for d in bdatas]
     rc_i, io = run(exe, reqs)
+    rc_m, mo = run(drv, reqs)
     if rc_i != 0:
         res.violation("h_lex crashed (rc=%d) on the Y stream" % rc_i, {"kind": "Y", "rc": rc_i}, found_input=False)
     WFB = re.compile(r'^"([0-3][0-9A-F]*)"')
@@ -383,6 +384,14 @@ def main(tier, seed):
                 mm = re.match(r'^"([0-9A-Fa-f]+)"', body)
                 if not mm or mm.group(1) != val:
                     msg = "token %r is read to the binary %s without an error although it does not spell it" % (d, val)
+        if k < len(mo) and io[k].split()[:7] != mo[k].split()[:7]:
+            disagreements += 1
+            if disagreements <= 5:
+                res.violation("model P21Bin.v and SDAI_Binary::STEPread disagree on %r: impl %r model %r" % (d, io[k], mo[k]),
+                              {"kind": "Y", "input": d, "input_hex": hexs(d), "theorem_or_correspondence": "correspondence C09: coq/P21Bin.v vs sdaiBinary.cc ReadBinary"},
+                              found_input=False)
+            else:
+                res.violations += 1
         if msg:
             oracle_fail += 1
             res.violation("BINARY: %s" % msg, {"kind": "Y", "input": d, "input_hex": hexs(d), "impl": io[k], "replay": "echo 'Y %s' | %s" % (hexs(d), exe)})
